@@ -1012,7 +1012,12 @@ class IkeSa(object):
                                                                  proposal=chosen_child_proposal, tsi=chosen_tsi,
                                                                  tsr=chosen_tsr)
         self.child_sas.append(self.creating_child_sa)
-        xfrm.Xfrm.create_child_sa(self, self.creating_child_sa, child_sa_keyring, is_initiator=True)
+        try:
+            xfrm.Xfrm.create_child_sa(self, self.creating_child_sa, child_sa_keyring, is_initiator=True)
+        except xfrm.NetlinkError:
+            # do not keep track of a CHILD_SA the kernel refused: closing the IKE_SA must not delete SAs it never installed
+            self.child_sas.remove(self.creating_child_sa)
+            raise
         self.log_info(f'Created CHILD_SA {self.creating_child_sa}')
 
     def process_ike_auth_response(self, response):
